@@ -180,14 +180,14 @@ func (ts *TimeSeries) TakeFrom(src []byte) ([]byte, error) {
 		return nil, err
 	}
 
-	if ts.step == 0 {
-		return nil, errors.New("step must not be zero")
+	if ts.step <= 0 {
+		return nil, errors.New("step must be positive")
 	}
 	if ts.untilTime < ts.fromTime {
 		return nil, errors.New("untilTime is older than fromTime")
 	}
 
-	n := int(ts.untilTime.Sub(ts.fromTime) / ts.step)
+	n := int((int64(ts.untilTime) - int64(ts.fromTime)) / int64(ts.step))
 	wantedSize := n * float64Size
 	if len(src) < wantedSize {
 		return nil, &WantLargerBufferError{WantedBufSize: 3*uint32Size + wantedSize}
